@@ -58,13 +58,18 @@ def specTrace (sty : Style) (rq : Req) (s : Sid) : List Ev :=
     | .ok => .scopeCreated s :: (mwEvs (some s) (some s) (locOf sty s) 0 (ranCount rq) ++ specTail sty rq s)
     | _ => [.createFailed, .errorHandlerRan]
 
+/-- C16 speaks about requests that pass the scope middleware: a scope already present in the
+incoming context (`rq.outer`) is considered only for those (what a handler sees without the
+middleware is not the middleware's doing) -/
+def Req.WF (rq : Req) : Prop := rq.installed = false → rq.outer = none
+
 def created (rq : Req) : Bool := rq.installed && rq.create = .ok
 
 /-- an integration refines the spec: for every request, every fresh scope id and every set of
 already closed scopes its trace is the specified one, it draws exactly one scope id iff a scope is
 created, and that scope is closed afterwards -/
 def Refines (I : Integration) (sty : Style) : Prop :=
-  ∀ (rq : Req) (base : Sid) (closed : List Sid), base ∉ closed →
+  ∀ (rq : Req) (base : Sid) (closed : List Sid), base ∉ closed → rq.WF →
     (I.run rq base closed).trace = specTrace sty rq base ∧
     (I.run rq base closed).nextSid = (if created rq then base + 1 else base) ∧
     (I.run rq base closed).closed = (if created rq then base :: closed else closed)
